@@ -6,7 +6,7 @@
 import Optyx.Generated.PinsC05
 
 namespace Optyx.Props.PinsC05
-open Optyx.Generated
+open Optyx.Generated.PinsC05
 
 /-- `extract_all_linear_coefficients` (analysis.py) -/
 theorem pin_analysis_extract_all_linear_coefficients_anchor : pin_analysis_extract_all_linear_coefficients = "12263a09e6ffedff" := rfl
